@@ -36,9 +36,12 @@ def harnesses():
     for n in (1, 2, 3):
         hs.append(H("c02_custom_%d" % n, "custom_names::<_, %d>" % n, n + 2, "quick" if n <= 2 else "thorough",
                     "two arbitrary %d-byte printable names: same header iff equal ignoring ASCII case" % n, timeout=1200, mem_gb=8))
-    for n in (0, 1, 2, 3):
+    for n in (0, 1, 2, 3, 4):
         hs.append(H("c02_table_%d" % n, "table::<_, %d>" % n, 6, "quick" if n in (1, 2) else "thorough",
-                    "header table with %d symbolic entries over {Host, Cookie, Custom(x-a)}: get = first, get_all = all in order, remove = exactly those" % n, timeout=1200, mem_gb=8))
+                    "header table with %d symbolic entries over {Host, Cookie, Custom(x-a)}: get = first, get_all = all in order, remove = exactly those" % n, timeout=1800, mem_gb=16))
+    for n in (2, 3, 4):
+        hs.append(H("c02_table_rm_%d" % n, "table_rm::<_, %d>" % n, 6, "quick" if n == 3 else "thorough",
+                    "header table with %d symbolic entries over {Host, Cookie, Custom(x-a)}: after remove(q) the fields of any other name keep their values and relative order" % n, timeout=1800, mem_gb=16))
     for h in hs:
         h.module = MODULE
     return hs
